@@ -330,6 +330,8 @@ pub fn run(ctx: &Ctx) {
     }
     run.space(&context("Init.bom", &[b"", b"\xEF", b"\xEF\xBB", b"\xEF\xBB\xBF", b"\xEF\xBB\xBF\xEF\xBB\xBF"], b"<?xml >a/", t.pick(5, 6), &[b""], false), &two, false);
 
+    run.space(&ws_class(), &[NEUTRAL, DEFAULT, 127], false);
+
     // the same lexical oracle for the streaming (buffered) reader: its scanners carry state across
     // refills, so a lexing bug may exist only there (schedules in depth are C02's business)
     for piece in [1usize, 2] {
